@@ -243,7 +243,7 @@ REG.update({
                  "every transaction and outbound ETX of every block (Quai, Qi with 1..3 inputs, conversions, coinbases with every lockup byte and data layout, claims, contract creation with access list) round-trips through protobuf and JSON with equal hash, field-by-field equal decoded object and identical re-encoding; every third Quai/Qi transaction is additionally copied with each of the 7 presence combinations of the optional work fields "
                  "(parent hash, mix hash, work nonce): same round trips, and no two copies share a hash; the block's receipts are read back through rawdb.ReadReceipts: they hash to the header's receipt root, name the right transaction/block, carry block-wide sequential log indices "
                  "(the forwarder contract emits two logs per call), and each receipt survives its consensus RLP encoding with logs and outbound ETXs; "
-                 "a block rewritten in one consensus field (byzantine rows of C07/C08/C09) never shares the hash of the honest candidate."),
+                 "a block rewritten in one consensus field (byzantine rows of C07/C08/C09) never shares the hash of the honest candidate." + " Also per block: the termini each context stored, the pending-ETX bundle the dominant chains hold, and the peer protocol's frames (requests by hash / number for each answer type; answers with block view, header view, list of block views, hash, empty) are encoded, decoded and compared."),
         "expect_probes": ["reorg", "byz.tx-hash", "byz.parent-hash", "block_with_logs_in_two_receipts"],
         "components": S5_COMPONENTS,
         "assumptions": ["objects are those the node and the harness generate in runs plus work-field presence copies of transactions; zero-vs-absent and maximum-width combinations of other fields are not generated (pure codec algebra over arbitrary inputs is outside this technique)",
@@ -272,7 +272,7 @@ REG.update({
                  "with every truncation of the donor scriptSig, and with byte-level corruptions of the coinbase transaction and of the frame, through AuxPow.ProtoDecode and the parser sequence the share validator and header verification run (ExtractScriptSig/SignatureTime/SealHash/MerkleSizeAndNonce/Height, CalculateMerkleRoot, ValidatePrevOutPoint..., ConvertToTemplate().VerifySignature, PowHash). "
                  "Oracle: no panic escapes any of these entry points (the harness installs recover only to turn the panic into the violation) and the node can still return to its honest head. "
                  "EVM half (evmsim TestC15): the generated programs and gas cuts of the S3 harness with memory-heavy actions and large ETX data windows; a tracer records memory size and gas at every step; "
-                 "oracle: the price of the memory growth a step causes (3 gas/word + words^2/512) never exceeds what that step was charged in total."),
+                 "oracle: the price of the memory growth a step causes (3 gas/word + words^2/512) never exceeds what that step was charged in total." + ' Peer-protocol request / response frames built around each block are corrupted twice each and given to DecodeQuaiMessage, DecodeQuaiRequest / DecodeQuaiResponse and the body sanity checks.'),
         "expect_probes": ["corrupt.bit-flip", "corrupt.truncate", "corrupt.huge-length-prefix", "corrupt.tx-bit-flip", "corrupt.donor-script-truncated", "donor_frames_parsed", "memory_growth_checked", "large_memory_expansion"],
         "components": {"real": S5_COMPONENTS["real"] + ["p2p/pb gossip codec (ConvertAndMarshal / UnmarshalAndConvert)", "Core.SanityCheckWorkObject*ViewBody", "TxPool.AddRemote", "vm interpreter with a vm.Tracer"],
                        "stub": S5_COMPONENTS["stub"] + ["the libp2p transport and the gossipsub validator wrapper (signature/PoW filter of shares) are not run", "RLP and hex/JSON RPC argument decoders are not fed; request / response frames of the peer protocol are fed to DecodeQuaiMessage / DecodeQuaiRequest / DecodeQuaiResponse and the sanity checks, not to the stream handlers", "the AuxPoW parser sequence is replayed from the gossip validator's source, the validator wrapper itself is not run"]},
